@@ -1,6 +1,9 @@
 //! Correspondence harness: generates histories, runs them on the implementation (this
 //! process, linked against /repo's crates) and on the model (the extracted OCaml driver),
 //! compares the observation streams and runs the property monitors.
+mod nexec;
+mod ngen;
+mod nhist;
 mod rexec;
 mod rgen;
 mod rhist;
@@ -32,6 +35,9 @@ fn gen_history(suite: &str, r: &mut Rng) -> Vec<Tree> {
             let hostile = r.chance(1, 3);
             rgen::gen_server(r, hostile, steps)
         }
+        "n-codec" => ngen::gen_codec(r),
+        "n-replay" => ngen::gen_replay(r),
+        "n-world" => ngen::gen_world(r),
         _ => panic!("unknown suite {}", suite),
     }
 }
@@ -39,6 +45,7 @@ fn gen_history(suite: &str, r: &mut Rng) -> Vec<Tree> {
 fn run_history(suite: &str, ops: &[Tree]) -> RunResult {
     match suite {
         "r-codec" | "r-pair" | "r-hostile" | "r-server" => rhist::run_history(ops),
+        "n-codec" | "n-replay" | "n-world" => nhist::run_history(ops),
         _ => panic!("unknown suite {}", suite),
     }
 }
